@@ -111,7 +111,7 @@ func runC08(c *core.Ctx) {
 	cn := 0
 	for ki, k := range cases {
 		n := reps
-		if k.Special == "twin-sublayouts" || k.Special == "surplus-sublayout" {
+		if k.Special == "twin-sublayouts" || k.Special == "surplus-sublayout" || k.Special == "plain+sublayout" {
 			n = c.Pick(12, 40)
 		}
 		for rep := 0; rep < n; rep++ {
